@@ -228,6 +228,9 @@ type progOpts struct {
 	MD5Pct      int // % of multipart/resumable uploads that declare an MD5
 	BigPerMille int
 	NoGzip      bool
+	// WirePct: % of uploads whose request bodies are streamed (no Content-Length, chunked transfer); with it set,
+	// resumable uploads take part in the gzip draw too (start request and every chunk compressed in transit).
+	WirePct     int
 	ExtraPct    int // % of multipart/resumable uploads whose metadata carries nested fields (acl, owner, ...)
 	CopyBodyPct int // % of copies whose request body is a full destination resource
 	// GzipObjPct: % of uploads whose payload is itself a gzip stream; three in four of those sent by multipart / resumable
@@ -371,8 +374,11 @@ func genUpload(r *common.Rand, o *progOpts, b, n string) *uploadSpec {
 			u.ContentEncoding = "gzip"
 		}
 	}
-	if u.Proto != "resumable" && !o.NoGzip && r.Chance(20, 100) {
+	if (u.Proto != "resumable" || o.WirePct > 0) && !o.NoGzip && r.Chance(20, 100) {
 		u.Gzip = true
+	}
+	if o.WirePct > 0 && r.Chance(o.WirePct, 100) {
+		u.Streamed = true
 	}
 	if u.Proto == "resumable" {
 		u.Post = r.Chance(30, 100)
@@ -1075,9 +1081,21 @@ func bigSameStep(r *common.Rand, e *exec, o *progOpts, b string) string {
 // temporaries, sidecars, backups, locks. A name continued by one of them is an object name like any other.
 var siblingSuffixes = []string{".tmp", ".tmp", ".meta", "~", ".part", ".bak", ".lock", ".new", ".old", ".swp", ".tmp.tmp", "-tmp", ".emumeta.tmp", ".json", ".emumeta"}
 
+// scratchBaseNames: base names a store implementation might use for a per-directory scratch, lock or journal file.
+var scratchBaseNames = []string{".tmp", ".tmp", ".swp", ".lock", ".part", ".new", ".bak", ".meta", ".emumeta", "tmp", ".tmp.tmp", ".~"}
+
 // siblingName derives from name the name of a sibling: name + suffix, or (one time in eight) a hidden file next to it
 // (".<base>.swp", "#<base>#" in the same "directory").
 func siblingName(r *common.Rand, name string) string {
+	if r.Chance(1, 6) {
+		// a dot-name of its own in the same "directory": what a store might call a scratch / lock file it keeps per
+		// directory (".tmp" next to "dir/g": an object like any other, with metadata of its own)
+		dir := ""
+		if i := strings.LastIndex(name, "/"); i >= 0 {
+			dir = name[:i+1]
+		}
+		return dir + common.Pick(r, scratchBaseNames)
+	}
 	if r.Chance(1, 8) {
 		dir, base := "", name
 		if i := strings.LastIndex(name, "/"); i >= 0 {
@@ -1114,7 +1132,7 @@ func richUpload(r *common.Rand, o *progOpts, b, n string) *uploadSpec {
 
 // siblingStep starts the "sibling names" scenario: two objects whose names extend one another by a suffix that a store
 // implementation might use for its own temporary / sidecar / backup / lock files (X and X.tmp, X.meta, X~, X.part, X.bak,
-// X.lock, .X.swp ...; under file rules only names the file store can hold). Both are given non-default metadata (content
+// X.lock, .X.swp ...; one time in six a dot-name of its own in X's directory: .tmp, .swp, .lock ...; under file rules only names the file store can hold). Both are given non-default metadata (content
 // type, user metadata, acl / owner ..., most of the time a patch on top: metageneration > 1); then 3-6 requests - overwrite
 // by any protocol, patch, copy onto it (also from the sibling: "upload to name.tmp, then rewrite to name"), compose onto
 // it, delete and re-creation - are addressed to one of the two, one request per step. The caller's dump after every
@@ -1165,6 +1183,8 @@ func siblingStep(r *common.Rand, e *exec, o *progOpts, b string) string {
 	e.stats["sibling_scenarios"]++
 	if strings.HasPrefix(y, x) {
 		e.stats["sibling_scenarios_suffix "+strings.TrimPrefix(y, x)]++
+	} else if base := y[strings.LastIndex(y, "/")+1:]; contains(scratchBaseNames, base) {
+		e.stats["sibling_scenarios_scratch_name_in_the_same_directory "+base]++
 	} else {
 		e.stats["sibling_scenarios_hidden_file_form"]++
 	}
